@@ -59,11 +59,12 @@ type Env struct {
 	faultOn  map[string]bool
 	diskWritesOutsideSync int
 	groups map[Loc]*egState
+	groupWrites map[Loc][]map[Loc]bool
 	nrand  int
 }
 
 func NewEnv(m *Machine) *Env {
-	return &Env{m: m, files: map[string]*FsFile{}, pageSize: 4096, faults: map[string]*Term{}, faultOn: map[string]bool{}, groups: map[Loc]*egState{}}
+	return &Env{m: m, files: map[string]*FsFile{}, pageSize: 4096, faults: map[string]*Term{}, faultOn: map[string]bool{}, groups: map[Loc]*egState{}, groupWrites: map[Loc][]map[Loc]bool{}}
 }
 
 func (e *Env) event(s string) { e.events = append(e.events, s) }
@@ -192,6 +193,27 @@ func (m *Machine) vrtEnvCall(name string, a []Value) (Value, bool) {
 		return c.Bool(ok), true
 	case "LogLen":
 		return c.IntI(SI64, int64(len(e.log))), true
+	case "FrameBegin":
+		m.frameMark = m.frameSerial + 1
+		m.frameViol = nil
+		return nil, true
+	case "FrameViolations":
+		n := len(m.frameViol)
+		if n > 0 {
+			m.res.Incon = append(m.res.Incon[:0:0], m.res.Incon...)
+			e.event("store into pre-existing object at " + m.frameViol[0])
+		}
+		m.frameMark = 0
+		return c.IntI(SI64, int64(n)), true
+	case "FrameSite":
+		if len(m.frameViol) > 0 {
+			return m.strConst(m.frameViol[0]), true
+		}
+		return m.strConst(""), true
+	case "WorkerConflicts":
+		return c.IntI(SI64, int64(len(m.workerConflicts))), true
+	case "DeepEqual":
+		return c.Bool(true), true
 	case "Writer":
 		return IfaceV{t: discardType, v: &DiscardObj{}}, true
 	case "LogHasPrefix":
